@@ -2,7 +2,7 @@
    Part A: facts that hold for BOTH variants (gate, dead is absorbing, delivered packets).
    Part B: the invariant of the REPAIRED variant (fixed = true) and its consequences:
            soundness, restrictions, once, stability.
-   Part C: the faithful model of the code as it is (fixed = false) violates soundness, once and
+   Part C: the faithful model of the code before repair 208592d (fixed = false) violates soundness, once and
            restrictions: concrete witnesses evaluated by vm_compute.
    Part D: honest single-request sessions are accepted (both variants). *)
 From AV Require Import Base.Prelude Model.Auth.
@@ -1255,7 +1255,7 @@ Proof. intros H. unfold step. rewrite H. reflexivity. Qed.
 End Gate.
 
 (* ------------------------------------------------------------------------------------------- *)
-(* Part C: the code as it is (fixed = false) violates the statements.  Witnesses by evaluation. *)
+(* Part C: the code before repair 208592d (fixed = false) violates the statements.  Witnesses by evaluation. *)
 Module Witness.
 
 Definition guest : user := [103;117;101;115;116].
